@@ -165,7 +165,7 @@ class Recorder:
                 await t
         self.ev('end')
         self.stopped = True
-        await self.host.aiozc.async_close()
+        await simnet.quiet(self.host.aiozc.async_close())
 
     def run(self) -> dict:
         self.net.run(self.main(), limit_ms=48 * 3600 * 1000)
